@@ -28,14 +28,15 @@ type Script struct {
 
 // Op is an API call running in its own goroutine.
 type Op struct {
-	Kind  string
-	P     int
-	Step  int
-	done  atomic.Bool
-	Err   error
-	Cid   cid.Cid
-	Head  cid.Cid // announce: the announced head
-	Start int     // len(R) when issued (lower bound)
+	Kind       string
+	P          int
+	Step       int
+	done       atomic.Bool
+	Err        error
+	Cid        cid.Cid
+	Head       cid.Cid // announce: the announced head
+	Start      int     // len(R) when issued (lower bound)
+	AfterClose bool    // a Close call had certainly returned before this call was issued
 }
 
 func (o *Op) Done() bool { return o.done.Load() }
@@ -119,6 +120,8 @@ type Exec struct {
 	explicitOut                                int
 	HoldBursts                                 []string
 	handlerRemoved                             bool
+	freezeOnce                                 sync.Once
+	frozenFlag                                 atomic.Bool
 }
 
 func NewExec(w *World, sc Script, discovery bool, opts ...dagsync.Option) (*Exec, error) {
@@ -219,7 +222,7 @@ func (e *Exec) busy(p int) bool {
 }
 
 func (e *Exec) start(kind string, p, step int, f func(o *Op)) *Op {
-	o := &Op{Kind: kind, P: p, Step: step, Start: e.S.NEvents()}
+	o := &Op{Kind: kind, P: p, Step: step, Start: e.S.NEvents(), AfterClose: e.frozenFlag.Load()}
 	e.Ops = append(e.Ops, o)
 	go func() {
 		f(o)
@@ -320,19 +323,24 @@ func (e *Exec) Run(i int, st Step, knownStaleStop bool) {
 				e.contender = true // Close waits on WaitGroups; explicit syncs parked at a gate keep it waiting
 			}
 		}
-		first := e.CloseAt == i
 		e.start("close", -1, i, func(o *Op) {
 			o.Err = e.S.S.Close()
-			if first {
-				// freeze the world counters: nothing may happen after the first Close returned
-				e.hooksAtClose, e.writesAtClose, e.eventsAtClose = e.S.NHooks(), e.S.NWrites(), e.S.NEvents()
-			}
+			e.closeReturned()
 		})
 	case "post":
 		e.post(i, st)
 	}
 	e.Settle()
 	e.afterSettle()
+}
+
+// closeReturned is called by whichever Close call returns first: it freezes the world counters (nothing may
+// happen after that) before anyone can observe that Close has returned.
+func (e *Exec) closeReturned() {
+	e.freezeOnce.Do(func() {
+		e.hooksAtClose, e.writesAtClose, e.eventsAtClose = e.S.NHooks(), e.S.NWrites(), e.S.NEvents()
+		e.frozenFlag.Store(true)
+	})
 }
 
 func (e *Exec) explicitBusy(p int) bool {
@@ -347,19 +355,15 @@ func (e *Exec) explicitBusy(p int) bool {
 func (e *Exec) afterSettle() {
 	n := 0
 	for _, o := range e.Ops {
-		if o.Kind == "sync" && !o.Done() {
+		// calls issued after Close was called may still get in before Close takes effect: they are explicit syncs too
+		if (o.Kind == "sync" || o.Kind == "post-sync" || o.Kind == "post-entries") && !o.Done() {
 			n++
 		}
 	}
 	e.explicitOut = n
-	if !e.frozen {
-		for _, o := range e.Ops {
-			if o.Kind == "close" && o.Done() {
-				e.frozen = true
-				e.CloseRet = true
-				break
-			}
-		}
+	if !e.frozen && e.frozenFlag.Load() {
+		e.frozen = true
+		e.CloseRet = true
 	}
 }
 
@@ -471,7 +475,7 @@ func (e *Exec) post(i int, st Step) {
 		e.handlerRemoved = true
 		e.start("post-remove", -1, i, func(o *Op) { _ = e.S.S.RemoveHandler(p.ID) })
 	case 6:
-		e.start("post-close", -1, i, func(o *Op) { o.Err = e.S.S.Close() })
+		e.start("post-close", -1, i, func(o *Op) { o.Err = e.S.S.Close(); e.closeReturned() })
 	}
 }
 
@@ -532,7 +536,7 @@ func (e *Exec) Finish(closeAtEnd bool) {
 	}
 	if closeAtEnd && e.CloseAt < 0 {
 		e.CloseAt = len(e.Ops) + 1000
-		o := e.start("close", -1, e.CloseAt, func(o *Op) { o.Err = e.S.S.Close() })
+		o := e.start("close", -1, e.CloseAt, func(o *Op) { o.Err = e.S.S.Close(); e.closeReturned() })
 		synctest.Wait()
 		if !o.Done() {
 			e.fail("the final Close does not return")
